@@ -1238,8 +1238,12 @@ pub fn run(tier: &str) -> i32 {
     let r = run_pool(
       n,
       &opts,
-      |_| load_like_main(&p2).expect("context image loads"),
-      |core, case, ctx: &mut Ctx| {
+      |_| (),
+      |_, case, ctx: &mut Ctx| {
+        // a machine of its own for every case: nothing an earlier case did to state outside the
+        // device block (a bank register, for instance) may decide whether this one survives
+        let mut core_box = load_like_main(&p2).expect("context image loads");
+        let core = &mut core_box;
         let ci = (case / 0x82) as usize;
         let ai = (case % 0x82) as u16;
         let addr: u16 = if ai < 0x80 { 0xFF00 + ai } else { 0xFFFE + (ai - 0x80) };
